@@ -214,6 +214,8 @@ class AccessMixin:
             return VTuple([VStr(PairSI.si_s(e)), VInt(PairSI.si_i(e))])
         if ek == 'pair_ib':
             return VTuple([VInt(PairIB.ib_i(e)), VBool(PairIB.ib_b(e))])
+        if ek == 'bytes':
+            return VBytes(e, False)
         raise Unsupported('element kind ' + ek)
 
     def index_value(self, p, b, i, fc, node):
